@@ -190,7 +190,7 @@ def admissionMonitor (env : Env) (cfg : Cfg) (confirmed : UtxoReg) (bs : List Bl
           if (List.zip t.inputs consumed).all (fun (i, u) => i.sigValid && i.address == u.out.address) then a2
           else a2 ++ [s!"C03 admitted owner-or-signature tx={t.id}"]
 
-def monitors (ds : DS) (env : Env) (cfg : Cfg) (o : ObsSt) (poolBefore : List String) : List String :=
+def monitors (ds : DS) (env : Env) (cfg : Cfg) (o : ObsSt) (poolBefore : List String) (produced : Bool := false) : List String :=
   match obsBlocks ds o with
   | .error e => ["C15 " ++ e]
   | .ok bs =>
@@ -208,7 +208,15 @@ def monitors (ds : DS) (env : Env) (cfg : Cfg) (o : ObsSt) (poolBefore : List St
         | none => ["C15 admitted transaction has no definition"]
       else if o.pool.length > poolBefore.length then [s!"C11 pool grew irregularly before={short poolBefore} after={short o.pool}"]
       else []
-    fails ++ derived ++ adm
+    let prod :=
+      if produced then
+        match bs.getLast?, (Spec.checkChain env cfg bs).2 with
+        | some tip, some conf =>
+          Spec.checkProduced env cfg (bs.length == 1) conf tip ++
+          (if o.pool.isEmpty then [] else ["C11 pool not empty after a block was produced"])
+        | _, _ => []
+      else []
+    fails ++ derived ++ adm ++ prod
 
 -- ---------------------------------------------------------------- operations
 
@@ -343,8 +351,9 @@ def step (ds : DS) (j : Json) : E (DS × Out) := do
     if !(obsP.take oldP.length == oldP && newly.length == want.length && want.all newly.contains && newly.all want.contains) then
       diffs := diffs ++ [s!"regsync appended model-set={short want} impl-suffix={short newly}"]
   let poolBefore := (getNode ds name).pool.map (·.id)
-  let props := if ds.monitorsOn then monitors ds envLo (cfgOf ds name) o poolBefore else []
-  let propsHi := if ds.monitorsOn then monitors ds envHi (cfgOf ds name) o poolBefore else []
+  let produced := op == "tick" && o.chain.length == (getNode ds name).led.blocks.length + 1
+  let props := if ds.monitorsOn then monitors ds envLo (cfgOf ds name) o poolBefore produced else []
+  let propsHi := if ds.monitorsOn then monitors ds envHi (cfgOf ds name) o poolBefore produced else []
   let notes := ds.notes.map (fun s => "C15 " ++ s)
   let ds := { ds with nodes := ds.nodes.insert name chosen, notes := [] }
   pure (ds, { diffs := diffs, props := props ++ notes, miss := miss || props != propsHi, info := info })
